@@ -18,5 +18,5 @@ extern "C" void __asan_on_error()
 extern "C" const char *__asan_default_options()
 {
     return "halt_on_error=0:detect_leaks=0:abort_on_error=0:print_summary=0:detect_odr_violation=0:"
-           "detect_container_overflow=1:allocator_may_return_null=1:handle_segv=0";
+           "detect_container_overflow=1:allocator_may_return_null=1:handle_segv=0:hard_rss_limit_mb=8000:quarantine_size_mb=16:malloc_context_size=2";
 }
